@@ -187,7 +187,12 @@ func c04NonParsing(r *Run) {
 	}
 	for i := 0; i < 65536; i++ {
 		if _, pm := guarded(func() string {
-			return sipsp.HdrT(i).String() + sipsp.URIScheme(int8(i)).String() + fmt.Sprint(sipsp.ErrorHdr(i).ErrorConv())
+			var hf sipsp.HdrFlags
+			hf.Set(sipsp.HdrT(i))
+			hf.Clear(sipsp.HdrT(i >> 3))
+			// (out-of-range types make GetHdrSigId log a BUG line each: only the defined types are enumerated)
+			id, e := sipsp.GetHdrSigId(sipsp.Hdr{Type: sipsp.HdrT(i % (int(sipsp.HdrOther) + 1)), Name: sipsp.PField{Offs: 1, Len: sipsp.OffsT(i % 3)}})
+			return sipsp.HdrT(i).String() + sipsp.URIScheme(int8(i)).String() + fmt.Sprint(sipsp.ErrorHdr(i).ErrorConv(), hf.Test(sipsp.HdrT(i)), hf.Any(sipsp.HdrT(i), sipsp.HdrT(i>>8)), hf.AllSet(sipsp.HdrT(i)), id, e)
 		}); pm != "" {
 			r.Col.add(&Violation{Property: "C04", Site: "String/ErrorConv", Rule: "no-panic", Class: "panic", Detail: pm, Case: mkCase("api-int", "String", nil, []byte{byte(i), byte(i >> 8)}, nil)})
 		}
